@@ -334,6 +334,20 @@ pub fn check_c05(case: &RCase, log: &RunLog, m: &Modelled) -> Vec<Violation> {
             }
             if has_next {
                 let b = atts[k + 1];
+                // each attempt starts from a freshly created World
+                if let (Some(ca), Some(cb)) = (first_callback_of(a, log), first_callback_of(b, log)) {
+                    if let (Some(wa), Some(wb)) = (ca.world, cb.world) {
+                        if wa == wb {
+                            out.push(v("C05/world-reused", format!("{name}: attempts #{k} and #{} both run on World #{wa}", k + 1)));
+                        }
+                    }
+                    // (only when the attempt's very first callback is attributable: shared background
+                    // steps run before own steps and mutate the World first)
+                    let first_is_attributable = b.callbacks.first().is_some_and(|c| c.1.is_some());
+                    if first_is_attributable && cb.world.is_some() && cb.counter != 0 {
+                        out.push(v("C05/world-not-fresh", format!("{name}: the first callback of attempt #{} sees a World already mutated {} times", k + 1, cb.counter)));
+                    }
+                }
                 match (a.finished, b.started) {
                     (Some(f), Some(s)) if f < s => {}
                     (f, s) => out.push(v("C05/attempts-overlap", format!("{name}: attempt #{k} Finished at {f:?}, attempt #{} Started at {s:?}", k + 1))),
@@ -443,17 +457,32 @@ pub fn check_c06(case: &RCase, log: &RunLog, m: &Modelled) -> Vec<Violation> {
     if log.end == RunEnd::Completed {
         let pf_idx = log.events.iter().find(|e| matches!(e.k, EvKind::ParsingFinished { .. })).map(|e| e.idx);
         let ff = first_final_failure(m, log).map(|x| x.0);
-        // serial scenarios: index of the Finished event of their last attempt
-        let serial_done_at: Option<usize> = {
-            let mut last = Some(0usize);
+        // A serial scenario waives the refill obligation (R5) while it is ready or running: unstarted,
+        // in flight, or waiting for a retry whose deadline may have passed. A serial retry whose delay
+        // has *certainly* not elapsed yet (its re-queue instant is later than the last quiescent point
+        // before the failed attempt's Finished was received) blocks nothing.
+        let serial_blocks = |n_ev: usize, q: &super::driver::Quiescent| -> bool {
             for s in case.scenarios.iter().filter(|s| s.serial) {
-                let done = m.attempts.iter().filter(|a| a.scenario == s.name).filter_map(|a| a.finished).max();
-                last = match (last, done) {
-                    (Some(l), Some(d)) => Some(l.max(d)),
-                    _ => None,
-                };
+                let atts: Vec<&Attempt> = m.attempts.iter().filter(|a| a.scenario == s.name).collect();
+                let started: Vec<&&Attempt> = atts.iter().filter(|a| a.started.is_some_and(|i| i < n_ev)).collect();
+                let Some(last) = started.last() else { return true };
+                match last.finished {
+                    Some(f) if f < n_ev => {
+                        let will_retry = attempt_failed_observed(last, log) && last.retries.is_some_and(|r| r.1 > 0);
+                        if will_retry {
+                            let certainly_waiting = s.retry.and_then(|r| r.1).is_some_and(|d| {
+                                let fin_ev = &log.events[f];
+                                log.quiescent.iter().rev().find(|x| x.seq < fin_ev.seq).is_some_and(|q0| q.at < q0.at + d)
+                            });
+                            if !certainly_waiting {
+                                return true;
+                            }
+                        }
+                    }
+                    _ => return true, // in flight
+                }
             }
-            last
+            false
         };
         let first_started: HashMap<&str, usize> = {
             let mut h = HashMap::new();
@@ -475,7 +504,7 @@ pub fn check_c06(case: &RCase, log: &RunLog, m: &Modelled) -> Vec<Violation> {
                 continue;
             }
             let parsed = pf_idx.is_some_and(|p| p < n_ev);
-            let serial_clear = serial_done_at.is_some_and(|d| d < n_ev);
+            let serial_clear = !serial_blocks(n_ev, q);
             let tripped = case.fail_fast() && ff.is_some_and(|f| f < n_ev);
             if !parsed || !serial_clear || tripped {
                 continue;
